@@ -176,6 +176,37 @@ def event_world(seed, twins=True):
                 else:
                     w.make_read(chrom, [head, e[3], e[5], (e[6][0], e[6][1] - 4 * q)], truth={"src": gid + ".tA", "class": "ambiguous-skipped-micro-exon"})
             p0 = e[-1][1] + rng.randint(2500, 3500)
+    # a short terminal read exon that spans an annotated micro-intron and is separated from the rest of the read by an unannotated intron:
+    # the read carries a fake terminal exon AND a retained micro-intron inside it (left end: micro-intron after the first isoform exon;
+    # right end: before the last one); plus the two events alone
+    for ci, chrom in enumerate(w.chrom_order):
+        p0 = max([g.end for g in w.genes if g.chrom == chrom] + [1000]) + 2500
+        for k, side in enumerate(("left", "right", "left", "right")):
+            if p0 + 3000 > w.chrom_len(chrom) - 8000:
+                break
+            strand = "+-"[(k // 2) % 2]
+            if side == "left":
+                e = [(p0 + 101, p0 + 280), (p0 + 301, p0 + 800), (p0 + 1100, p0 + 1300), (p0 + 1500, p0 + 1700)]
+                trig = [(p0 + 271, p0 + 310), (p0 + 401, p0 + 800), e[2], (e[3][0], e[3][1] - 50)]
+                mir = [(p0 + 150, p0 + 800), e[2], (e[3][0], e[3][1] - 50)]
+                fake = [(p0 + 20, p0 + 45), (p0 + 150, p0 + 280), e[1], e[2]]
+            else:
+                e = [(p0 + 101, p0 + 300), (p0 + 501, p0 + 700), (p0 + 1000, p0 + 1500), (p0 + 1521, p0 + 1700)]
+                trig = [(p0 + 150, p0 + 300), e[1], (p0 + 1000, p0 + 1400), (p0 + 1491, p0 + 1530)]
+                mir = [(p0 + 150, p0 + 300), e[1], (p0 + 1000, p0 + 1650)]
+                fake = [e[1], e[2], (e[3][0], e[3][1] - 50), (p0 + 1760, p0 + 1785)]
+            gid = "FM%d_%d" % (ci + 1, k + 1)
+            g = Gene(gid, chrom, strand)
+            g.transcripts.append(Transcript(gid + ".t1", gid, chrom, strand, e, True, "fake-exon-over-micro-intron"))
+            for intr in g.transcripts[0].introns:
+                w.plant_sites(chrom, intr, strand)
+            w.genes.append(g)
+            for q in range(2):
+                w.make_read(chrom, list(e), truth={"src": gid + ".t1", "class": "exact"})
+                w.make_read(chrom, trig, truth={"src": gid + ".t1", "class": "fake-terminal-exon-over-micro-intron-" + side})
+                w.make_read(chrom, mir, truth={"src": gid + ".t1", "class": "micro-intron-retained-in-terminal-exon-" + side})
+                w.make_read(chrom, fake, truth={"src": gid + ".t1", "class": "fake-terminal-exon-" + side})
+            p0 = e[-1][1] + rng.randint(2500, 3500)
     # three-exon genes with a 24-44 bp middle exon; reads that skip it and whose one outer site lies 3-5 bp inside the neighbouring exon
     # (the short-read based rule "one long intron = two short-read introns around a micro-exon" needs one of the outer sites to differ);
     # eight loci per sequence, because the rule walks a SET of short-read introns in hash order
